@@ -363,7 +363,11 @@ def check(case, ctx):
     # attribute to the set-once tolerance only if forcing that tolerance on a fresh probe reproduces the after-history answer
     tol = b["tolerance_before_probe"]
     c, nc = child(lambda: run_probe_with_forced_tolerance(probe, tol))
-    explained = c is not None and c["digest"] == b["digest"] and tol[0] >= 0
+    # ... and only a tolerance the library itself sets for a design (area tolerance = sqrt(distance tolerance)): a history that leaves
+    # behind any other pair of values is a different defect, not the recorded one
+    import math
+    consistent = tol[0] >= 0 and abs(tol[1] - math.sqrt(tol[0])) <= 1e-9 * max(tol[1], 1e-300)
+    explained = c is not None and c["digest"] == b["digest"] and consistent
     ctx.violation("history_changes_result",
                   f"probe {probe['k']} gives {json.dumps(a['digest'])[:250]} alone but {json.dumps(b['digest'])[:250]} after {len(history)} operations "
                   f"(tolerance left behind: {tol}); probe={json.dumps(probe)[:400]}",
